@@ -87,6 +87,30 @@ Record pkey := { pk_fam : fam; pk_repr : repr; pk_id : N }.
    over message m, or nothing of the kind *)
 Inductive sigv := SBy (k : N) (p : sproc) (m : list N) | SOther | SEmpty.
 
+
+(* ---- DID documents and the key resolver of didsignjwt (vdrkeyresolver.go resolvePublicKey) ----
+   A document is the list of (verification method, relationship under which the document lists it) that
+   doc.VerificationMethods() enumerates.  The resolver returns the key of the FIRST entry whose id CONTAINS the
+   fragment (strings.Contains) and whose relationship is not keyAgreement; a method listed for key agreement only
+   is never a verification key. *)
+Inductive rel := RAuth | RAssert | RCapDel | RCapInv | RKeyAgr | RGeneral.
+Record vmeth := { vm_id : string; vm_rel : rel; vm_key : pkey }.
+Definition signing_rel (r : rel) : bool := match r with RKeyAgr => false | _ => true end.
+Fixpoint contains (sub s : string) : bool :=
+  String.prefix sub s || match s with String _ r => contains sub r | EmptyString => false end.
+Fixpoint first_method (frag : string) (ms : list vmeth) : option vmeth :=
+  match ms with
+  | [] => None
+  | m :: r => if contains frag (vm_id m) && signing_rel (vm_rel m) then Some m else first_method frag r
+  end.
+Fixpoint find_doc (ds : list (string * list vmeth)) (d : string) : option (list vmeth) :=
+  match ds with [] => None | (d', ms) :: r => if String.eqb d d' then Some ms else find_doc r d end.
+Definition resolve_docs (ds : list (string * list vmeth)) (d f : string) : option pkey :=
+  match find_doc ds d with
+  | Some ms => match first_method f ms with Some m => Some (vm_key m) | None => None end
+  | None => None
+  end.
+
 Inductive variant := AsIs | Fixed.
 Inductive vcfg := VBasic | VSingle (k : pkey) | VUnsecured.
 Inductive vres := VOk | VFail | VCrash.
